@@ -128,7 +128,7 @@ fn main() {
         }
         "mirigen" => {
             let out = opts.extra.get("out").cloned().unwrap_or_else(|| "/verif/work/miri".to_string());
-            match mirigen::generate(opts.seed, std::path::Path::new(&out), opts.extra.contains_key("big")) {
+            match mirigen::generate(opts.seed, std::path::Path::new(&out), opts.extra.contains_key("big"), opts.extra.contains_key("many")) {
                 Ok(()) => 0,
                 Err(e) => {
                     eprintln!("HARNESS-ERROR: mirigen: {}", e);
